@@ -22,7 +22,7 @@ PROPS = {
     "C10": dict(families=["poison", "panic"], pred="C10"),
     "C11": dict(families=["panic"], pred="C11"),
     "C12": dict(families=["fault"], pred="C12"),
-    "C13": dict(families=["acq"], pred="C13"),
+    "C13": dict(families=["quiet", "acq"], pred="C13"),
     "C17": dict(families=["nonacq"], pred="C17"),
 }
 
